@@ -205,6 +205,39 @@ def jdump(x):
     return json.dumps(x, sort_keys=True, ensure_ascii=True)
 
 
+class Hang(BaseException):
+    """raised by the watchdog when the implementation does not return"""
+
+
+class watchdog:
+    """`with watchdog(5):` — raises Hang inside the block after that many seconds (main thread)"""
+
+    def __init__(self, seconds):
+        self.seconds = seconds
+
+    def __enter__(self):
+        import signal
+
+        def onalarm(signum, frame):
+            raise Hang()
+        self.old = signal.signal(signal.SIGALRM, onalarm)
+        signal.setitimer(signal.ITIMER_REAL, self.seconds)
+
+    def __exit__(self, *a):
+        import signal
+        signal.setitimer(signal.ITIMER_REAL, 0)
+        signal.signal(signal.SIGALRM, self.old)
+        return False
+
+
+def quiet_twisted():
+    try:
+        from twisted.logger import globalLogBeginner
+        globalLogBeginner.beginLoggingTo([lambda e: None], redirectStandardIO=False, discardBuffer=True)
+    except Exception:
+        pass
+
+
 class Result:
     """what a property module reports for one case"""
     __slots__ = ('case', 'impl', 'model', 'spec', 'corr_ok', 'prop_ok', 'in_h', 'nontrivial', 'tags')
@@ -246,6 +279,7 @@ def main(mod):
         seed = int(os.environ.get('VERIF_SEED', '0'))
     except ValueError:
         seed = 0
+    quiet_twisted()
     try:
         rc = check(mod, tier, seed, args.replay)
     except subprocess.TimeoutExpired as e:
@@ -308,7 +342,7 @@ def check(mod, tier, seed, replay=None):
         cases = [rep['case']]
     else:
         cases = list(mod.corpus()) + list(mod.gen_cases(rng, tier))
-    drv = Driver(prop) if driver_ok else None
+    drv = Driver(getattr(mod, 'DRIVER', prop)) if driver_ok else None
     results = mod.run_cases(cases, drv, tier)
 
     known = load_known_findings()
